@@ -292,6 +292,16 @@ Cleanup ==
     /\ op' = [a |-> "Cleanup", arg |-> 0, res |-> "ok"]
     /\ UNCHANGED <<clock, ev, pending, bound, incl, mode, seg, executed, prog, initOps, ann, due, notif, nrep, premature>>
 
+(* a brand-new simulator object is given the same model (used by trace validation: C06 C07) *)
+FreshSimulator ==
+    /\ Quiet
+    /\ rs' = "NOT_INITIALIZED" /\ rep' = "NOT_INITIALIZED"
+    /\ clock' = 0 /\ ev' = <<>> /\ pending' = {}
+    /\ bound' = 0 /\ incl' = TRUE /\ mode' = "none" /\ seg' = 0
+    /\ executed' = <<>> /\ ann' = FALSE /\ due' = <<>> /\ notif' = <<>> /\ premature' = FALSE
+    /\ op' = [a |-> "FreshSimulator"]
+    /\ UNCHANGED <<prog, initOps, nrep, ncmd>>
+
 RunUpToAny == \E b \in Bounds, inc \in BOOLEAN : RunUpTo(b, inc)
 
 Commands == Initialize \/ Start \/ RunUpToAny \/ Step \/ Stop
